@@ -320,7 +320,8 @@ class Explorer:
         hashes = set((r["wid"], r["hash"]) for r in nontrivial)
         strat, faults, kinds, probes, threads = {}, {}, {}, {}, {}
         for r in rs:
-            strat[r["strategy"]] = strat.get(r["strategy"], 0) + 1
+            sk = str(r["strategy"]) if r["strategy"] is not None else "no-stats(crashed)"
+            strat[sk] = strat.get(sk, 0) + 1
             threads[str(r["n"])] = threads.get(str(r["n"]), 0) + 1
             for k, v in (r["fault_counts"] or {}).items():
                 if v:
